@@ -73,7 +73,7 @@ Definition receiver_of (c : case) (p : policy) : receiver :=
      r_limits := {| lim_string := 16777216; lim_bstring := 16777216 |} |}.
 
 (* 0 = chunk returned, 1 = other error, 2 = security error, -2 = panic *)
-Definition code9 {A} (r : res A) : Z := match r with Ok _ => 0 | Err e => e | Panic _ => -2 end.
+Definition code9 {A} (r : res A) : Z := match r with Ok _ => 0 | Err e => if e =? E_SEC then 2 else 1 | Panic _ => -2 end.
 
 Fixpoint feed (P : prims) (fx : fixes) (c : case) (p : policy) (chunks : list (list seg)) : list Z * option (list bytes) * policy :=
   match chunks with
@@ -124,3 +124,22 @@ Definition tr_ok (T : transcript) : bool :=
 Definition validb (c : case) : bool :=
   tr_ok (c_tr c) && (0 <=? c_start c) && (if c_validate c then negb (Nat.eqb (length (c_chunks c)) 0) else true).
 Definition valid (c : case) : Prop := validb c = true.
+
+(* ---------------- the code before each C09 fix: commit ---------------- *)
+Module Legacy.
+  (* [current] without fix number [w]: 1 null sender certificate, 2 missing own certificate / private
+     key, 3 keys not derived, 4 AES block size, 5 chunk shorter than its signature, 6 padding
+     indices, 7 sequence number arithmetic, 8 RSA block loop (pre-landed) *)
+  Definition without (w : Z) : fixes :=
+    let fx := current in
+    {| fx_pad_sign := fx_pad_sign fx; fx_budget := fx_budget fx; fx_opn_budget := fx_opn_budget fx;
+       fx_null_cert := if w =? 1 then false else fx_null_cert fx;
+       fx_own_cert := if w =? 2 then false else fx_own_cert fx;
+       fx_no_keys := if w =? 3 then false else fx_no_keys fx;
+       fx_aes_block := if w =? 4 then false else fx_aes_block fx;
+       fx_size_sig := if w =? 5 then false else fx_size_sig fx;
+       fx_padding := if w =? 6 then false else fx_padding fx;
+       fx_seq := if w =? 7 then false else fx_seq fx;
+       fx_rsa_block := if w =? 8 then false else fx_rsa_block fx |}.
+  Definition run (w : Z) (c : case) : list Z := run_with (without w) c.
+End Legacy.
